@@ -6,6 +6,8 @@ import LogicaModel.Concertina
 import LogicaModel.Udf
 import LogicaModel.SemJson
 import LogicaModel.CQ
+import LogicaModel.TypeSolve
+import LogicaModel.Format
 /-! Request handlers of the line-protocol driver (executable definitions of the models only). -/
 open Lean
 
@@ -236,6 +238,50 @@ def handleCQ (j : Json) : Except String Json := do
   return Json.mkObj [("selects", Json.arr selJ.toArray), ("denote", cqRows (CQ.denoteRules db rs)),
                      ("sql_rows", cqRows (CQ.evalUnion db sels))]
 
+/-! ### TypeSolve: scalar constraint solving -/
+def styOfName : String → Except String TypeSolve.STy
+  | "any" => pure .any | "singular" => pure .singular | "sequential" => pure .sequential | "num" => pure .num
+  | "str" => pure .str | "bool" => pure .bool | "time" => pure .time | "bad" => pure .bad
+  | s => throw ("unknown scalar type " ++ s)
+
+def styName : TypeSolve.STy → String
+  | .any => "any" | .singular => "singular" | .sequential => "sequential" | .num => "num"
+  | .str => "str" | .bool => "bool" | .time => "time" | .bad => "bad"
+
+def handleTySolve (j : Json) : Except String Json := do
+  let n ← j.getObjValAs? Nat "n"
+  let passes ← j.getObjValAs? Nat "passes"
+  let cons ← j.getObjValAs? (Array Json) "cons"
+  let cs ← cons.toList.mapM fun c => do
+    let k ← (← c.getArrVal? 0).getStr?
+    let x ← (← c.getArrVal? 1).getNat?
+    if k == "g" then
+      let t ← styOfName (← (← c.getArrVal? 2).getStr?)
+      pure (TypeSolve.Con.ground x t)
+    else
+      let y ← (← c.getArrVal? 2).getNat?
+      pure (TypeSolve.Con.same x y)
+  return Json.arr ((TypeSolve.solveList n cs passes).map fun t => Json.str (styName t)).toArray
+
+/-! ### Format: templating of built-in calls -/
+def codesOf (s : String) : List Nat := s.toList.map Char.toNat
+def ofCodes (l : List Nat) : String := String.ofList (l.map Char.ofNat)
+
+def handleFormat (op : String) (j : Json) : Except String Json := do
+  let t ← str j "template"
+  let args ← j.getObjValAs? (Array String) "args"
+  let as := args.toList.map codesOf
+  let r : Option (List Nat) :=
+    if op == "fmt_function" then Format.function (codesOf t) as
+    else Format.infixOp (codesOf t) (as.getD 0 []) (as.getD 1 [])
+  let ok := if op == "fmt_function" then Format.functionTemplateOK (codesOf t)
+            else Format.infixTemplateOK (codesOf t) && Format.infixTemplateTotal (codesOf t)
+  let bal (l : List Nat) : Bool := Format.scan l ⟨0, none⟩ == some ⟨0, none⟩
+  return Json.mkObj [("out", match r with | some o => Json.str (ofCodes o) | none => Json.null),
+                     ("template_ok", ok),
+                     ("balanced", match r with | some o => Json.bool (bal o) | none => Json.null),
+                     ("args_balanced", Json.bool (as.all bal))]
+
 def handle (j : Json) : Except String Json := do
   let op ← str j "op"
   if ["strlit", "lex", "useflags", "buildflags"].contains op then handleEscape op j
@@ -245,6 +291,8 @@ def handle (j : Json) : Except String Json := do
   else if ["argk", "range_cte"].contains op then handleUdf op j
   else if op == "denote" then Sem.handleDenote j
   else if op == "cq" then handleCQ j
+  else if op == "tysolve" then handleTySolve j
+  else if ["fmt_function", "fmt_infix"].contains op then handleFormat op j
   else throw ("unknown op " ++ op)
 
 end Logica.Ops
